@@ -65,9 +65,13 @@ func (f *c11Filter) Name() string        { return f.spec.Name() }
 func (f *c11Filter) Kind() *filters.Kind { return c11Kind }
 func (f *c11Filter) Spec() filters.Spec  { return f.spec }
 func (f *c11Filter) Status() interface{} { return nil }
-func (f *c11Filter) Init()               { c11Log = append(c11Log, "Init "+f.spec.Gen) }
+func (f *c11Filter) Init() {
+	vrt.Yield("filter-init") // building a generation takes time: requests can run meanwhile
+	c11Log = append(c11Log, "Init "+f.spec.Gen)
+}
 func (f *c11Filter) Close()              { f.closed = true; c11Log = append(c11Log, "Close "+f.spec.Gen) }
 func (f *c11Filter) Inherit(prev filters.Filter) {
+	vrt.Yield("filter-inherit") // building a generation takes time: requests can run meanwhile
 	c11Log = append(c11Log, "Inherit "+f.spec.Gen+"<-"+prev.(*c11Filter).spec.Gen)
 }
 func (f *c11Filter) Handle(ctx *context.Context) string {
